@@ -2,7 +2,7 @@
    load (so_bytes (save_core XTable d)) returns the reloaded document, for every savable_core document outside the
    known-finding class. *)
 From LV Require Import Base.Bytes Base.Sx Model.Obj Model.Writer Model.Parser Model.Save Model.Xref Model.Loader
-  Model.Utf Gen.Lex Gen.SaveFmt Proofs.LexProofs Proofs.RealProofs Proofs.ObjectRtProofs Proofs.SaveProofs
+  Model.LoaderEnc Proofs.LoaderEncProofs Model.Utf Gen.Lex Gen.SaveFmt Proofs.LexProofs Proofs.RealProofs Proofs.ObjectRtProofs Proofs.SaveProofs
   Proofs.FilterProofsDict Spec.SaveSpec Proofs.LoadProofs Proofs.LoadProofsFile Proofs.LoadProofsXref.
 
 Local Open Scope N_scope.
@@ -156,7 +156,23 @@ Proof.
     pose proof (N.mod_lt pos u32_mod ltac:(unfold u32_mod; lia)). unfold u32_max, u32_mod in *. lia.
 Qed.
 
-(* ---------- facts that follow from savable_core ---------- *)
+(* ---------- facts that follow from savable_core ----------
+   The lemmas are proved on [savable_core_enc] (the domain without "no Encrypt entry"); the statements on
+   [savable_core] follow by [core_enc]. *)
+Lemma core_enc d : savable_core d -> savable_core_enc d.
+Proof.
+  intro S. constructor;
+    [apply (sv_max_id d S) | apply (sv_mark d S) | apply (sv_version_eol d S) | apply (sv_version_utf8 d S)
+    | apply (sv_numbers d S) | apply (sv_objects d S) | apply (sv_trailer d S) | apply (sv_no_prev d S)].
+Qed.
+
+Lemma core_of_enc d : savable_core_enc d -> dict_has (d_trailer d) Save.K_Encrypt = false -> savable_core d.
+Proof.
+  intros S E. constructor;
+    [apply (se_max_id d S) | apply (se_mark d S) | apply (se_version_eol d S) | apply (se_version_utf8 d S)
+    | apply (se_numbers d S) | apply (se_objects d S) | apply (se_trailer d S) | apply (se_no_prev d S) | exact E].
+Qed.
+
 Lemma dict_set_forall (P : bytes * obj -> Prop) : forall d k v,
   Forall P d -> P (k, v) -> (forall k' v', P (k', v') -> P (k', v)) -> Forall P (dict_set d k v).
 Proof.
@@ -174,18 +190,22 @@ Proof.
   - fold (nest_dict d). fold (nest_dict (dict_set d k (OInt z))). specialize (IH k z). lia.
 Qed.
 
-Lemma trailer_table_wf d :
-  savable_core d -> obj_wf (ODict (trailer_table d)).
+Lemma trailer_table_wf_enc d :
+  savable_core_enc d -> obj_wf (ODict (trailer_table d)).
 Proof.
-  intro S. pose proof (sv_trailer d S) as Hw. inversion Hw as [| | | | | | |tr Hnd Hf|]; subst.
+  intro S. pose proof (se_trailer d S) as Hw. inversion Hw as [| | | | | | |tr Hnd Hf|]; subst.
   unfold trailer_table. constructor.
   - apply (dict_set_wf (d_trailer d) Save.K_Size _ Hnd).
   - apply dict_set_forall; [exact Hf | | intros; constructor].
-    + cbn [snd]. constructor. pose proof (sv_max_id d S). unfold in_i64, i64_min, i64_max, u32_mod in *.
+    + cbn [snd]. constructor. pose proof (se_max_id d S). unfold in_i64, i64_min, i64_max, u32_mod in *.
       apply andb_true_iff; split; apply Z.leb_le; lia.
-    + cbn [snd]. pose proof (sv_max_id d S). unfold in_i64, i64_min, i64_max, u32_mod in *.
+    + cbn [snd]. pose proof (se_max_id d S). unfold in_i64, i64_min, i64_max, u32_mod in *.
       apply andb_true_iff; split; apply Z.leb_le; lia.
 Qed.
+
+Lemma trailer_table_wf d :
+  savable_core d -> obj_wf (ODict (trailer_table d)).
+Proof. intro S. apply trailer_table_wf_enc. apply core_enc. exact S. Qed.
 
 Lemma trailer_table_nest d :
   known_deep d = false -> (nest (ODict (trailer_table d)) <= MAX_DEPTH)%nat.
@@ -196,10 +216,10 @@ Proof.
   pose proof (nest_dict_set (d_trailer d) Save.K_Size (Z.of_N (d_max_id d + 1))). pose proof (Nat.le_max_r 2 (S (nest_dict (d_trailer d)))). lia.
 Qed.
 
-Lemma savable_objs_ok d :
-  savable_core d -> known_deep d = false -> Forall obj_ok (d_objects d).
+Lemma savable_objs_ok_enc d :
+  savable_core_enc d -> known_deep d = false -> Forall obj_ok (d_objects d).
 Proof.
-  intros S K. pose proof (sv_objects d S) as Ho. pose proof (sv_max_id d S) as Hm.
+  intros S K. pose proof (se_objects d S) as Ho. pose proof (se_max_id d S) as Hm.
   unfold known_deep in K. apply orb_false_iff in K as [K _].
   rewrite Forall_forall in *. intros io Hin. specialize (Ho io Hin). destruct Ho as [H1 [H2 [H3 H4]]].
   unfold obj_ok. split; [|split; [|split; [|split]]]; try assumption.
@@ -211,13 +231,20 @@ Proof.
     apply Nat.ltb_ge in Hk. exact Hk.
 Qed.
 
-Lemma save_table_ok d : savable_core d -> so_status (save_core XTable d) = SaveOk.
+Lemma savable_objs_ok d :
+  savable_core d -> known_deep d = false -> Forall obj_ok (d_objects d).
+Proof. intro S. apply savable_objs_ok_enc. apply core_enc. exact S. Qed.
+
+Lemma save_table_ok_enc d : savable_core_enc d -> so_status (save_core XTable d) = SaveOk.
 Proof.
   intro S. unfold save_core.
   replace (u32_top <=? d_max_id d) with false
-    by (symmetry; apply N.leb_gt; pose proof (sv_max_id d S); unfold u32_top, u32_mod in *; lia).
-  rewrite (sv_mark d S). cbn [negb]. destruct (save_body d) as [[b xs] x]. reflexivity.
+    by (symmetry; apply N.leb_gt; pose proof (se_max_id d S); unfold u32_top, u32_mod in *; lia).
+  rewrite (se_mark d S). cbn [negb]. destruct (save_body d) as [[b xs] x]. reflexivity.
 Qed.
+
+Lemma save_table_ok d : savable_core d -> so_status (save_core XTable d) = SaveOk.
+Proof. intro S. apply save_table_ok_enc. apply core_enc. exact S. Qed.
 
 Lemma max_id_fold : forall objs pos a,
   Forall obj_ok objs ->
@@ -268,19 +295,32 @@ Proof.
   pose proof (eq_refl : length (bs "xref") = 4%nat). lia.
 Qed.
 
-(* ---------- the composition ---------- *)
-Theorem load_save_table d :
-  savable_core d -> known_deep d = false -> small_file_core XTable d ->
-  load (so_bytes (save_core XTable d)) = LOk (reloaded_table d) XTTable.
+(* ---------- the composition ----------
+   [front_save_table]: the reader's front (header, mark, startxref, table, trailer, Prev, size) on the bytes save wrote,
+   and the objects its table leads to -- for every document of the domain, with or without an Encrypt entry.
+   [load_save_table] (no Encrypt: Loader.load) and Proofs/LoadProofsFull.v's theorems about LoaderEnc.load_encx (the
+   decrypt attempt gets exactly this document) both follow from it. *)
+Definition table_xref (x : Save.xmap) (size : N) : xref :=
+  {| x_type := XTTable; x_entries := conv_map x; x_size := i64_as_u32 (Z.of_N size) |}.
+
+Theorem front_save_table d :
+  savable_core_enc d -> known_deep d = false -> small_file_core XTable d ->
+  exists x : Save.xmap,
+    load_front (so_bytes (save_core XTable d)) =
+      SOk {| f_buf := so_bytes (save_core XTable d); f_version := d_version d; f_mark := d_binary_mark d;
+             f_xref := table_xref x (d_max_id d + 1); f_trailer := norm_dict (trailer_table d) |} /\
+    xref_max_id (table_xref x (d_max_id d + 1)) = last_number (d_objects d) /\
+    Forall normal_ok x /\
+    read_entries (so_bytes (save_core XTable d)) (conv_map x) [] = SOk (norm_objects (d_objects d)).
 Proof.
   intros S K Hsmall.
-  pose proof (save_table_ok d S) as Hok.
+  pose proof (save_table_ok_enc d S) as Hok.
   destruct (save_core_shape XTable d Hok) as [mid [Hbytes Hmid]].
   set (v := d_version d). set (m := d_binary_mark d). set (objs := d_objects d).
   set (t := trailer_table d). set (size := d_max_id d + 1).
   set (HM := header_bytes d ++ mark_bytes d).
-  assert (Hobjs : Forall obj_ok objs) by (apply savable_objs_ok; assumption).
-  assert (Hinc : increasing 0 (obj_numbers objs)) by (apply (sv_numbers d S)).
+  assert (Hobjs : Forall obj_ok objs) by (apply savable_objs_ok_enc; assumption).
+  assert (Hinc : increasing 0 (obj_numbers objs)) by (apply (se_numbers d S)).
   assert (Ebody : body_of d = HM ++ objs_bytes objs).
   { unfold body_of. rewrite save_body_eq. cbv zeta. cbn [fst]. fold HM. fold objs. rewrite write_objects_bytes. reflexivity. }
   assert (Ex : xmap_of d = entries_of (Save.blen HM) objs).
@@ -303,75 +343,84 @@ Proof.
   { unfold file. rewrite Ebody. rewrite <- !app_assoc. reflexivity. }
   (* the map *)
   destruct (entries_of_props objs (Save.blen HM) 0 size Hobjs Hinc) as [Hxi [Hxb Hxn]].
-  { pose proof (sv_objects d S) as Ho. eapply Forall_impl; [|exact Ho]. intros io [H1 _]. unfold size. lia. }
+  { pose proof (se_objects d S) as Ho. eapply Forall_impl; [|exact Ho]. intros io [H1 _]. unfold size. lia. }
   fold x in Hxi, Hxb, Hxn. replace (0 + 1) with 1 in Hxi by lia.
-  pose proof (sv_max_id d S) as Hmax.
-  (* load *)
-  unfold load.
-  assert (Hoff : pdf_offset file = 0) by (rewrite E1; apply pdf_offset_header).
-  rewrite Hoff, from_0.
-  assert (Hhead : header file = Some v).
-  { rewrite E1. apply header_rt; [apply (sv_version_eol d S) | apply (sv_version_utf8 d S)]. }
-  rewrite Hhead.
-  assert (Hmark : read_binary_mark file = m).
-  { rewrite E1. apply binary_mark_rt; [apply (sv_version_eol d S) | apply (sv_mark d S)]. }
-  rewrite Hmark.
-  assert (Hn_len : n = Loader.blen (body_of d)) by reflexivity.
-  assert (Hstart : get_xref_start file = Some n).
-  { rewrite E2. apply get_xref_start_rt.
-    - rewrite Hn_len. unfold Loader.blen. rewrite app_length. lia.
-    - pose proof (write_xref_long x size) as Hxl.
-      unfold Loader.blen. rewrite Ebody. unfold HM, header_bytes, mark_bytes, trailer_bytes.
-      repeat (rewrite app_length; cbn [length]).
-      pose proof (eq_refl : length (bs "%PDF-") = 5%nat). pose proof (eq_refl : length (bs "trailer") = 7%nat).
-      assert (4 <= length (write_dictionary t))%nat.
-      { unfold write_dictionary. rewrite write_dict_eq. cbn [length]. rewrite app_length. cbn [length]. lia. }
-      lia.
-    - assert (n < u32_mod).
-      { rewrite Hn_len. unfold file, Loader.blen in *. rewrite app_length in Hsm. lia. }
-      unfold u32_mod in *. change (10 ^ 14) with 100000000000000. lia. }
-  rewrite Hstart.
-  (* xref and trailer *)
-  assert (Hwf : obj_wf (ODict t)) by (apply trailer_table_wf; exact S).
-  assert (Hnest : (nest (ODict t) <= MAX_DEPTH)%nat) by (apply trailer_table_nest; exact K).
-  assert (Hxt : xref_and_trailer file n =
-                SOk ({| x_type := XTTable; x_entries := conv_map x; x_size := i64_as_u32 (Z.of_N size) |}, norm_dict t)).
-  { unfold xref_and_trailer. rewrite Hn_len. unfold file. rewrite from_app.
-    unfold xref_and_trailer_table.
-    assert (Etr : trailer_bytes t ++ sx = bs "trailer" ++ x0a :: write_dictionary t ++ sx).
-    { unfold trailer_bytes. repeat (rewrite <- app_assoc; cbn [app]). reflexivity. }
-    rewrite <- app_assoc. rewrite Etr.
-    rewrite xref_table_roundtrip; [| unfold size; lia | unfold size, two32, u32_mod in *; lia | exact Hxi | exact Hxb | exact Hxn].
-    rewrite <- Etr. rewrite trailer_rt by assumption.
-    rewrite dict_get_norm. unfold t, trailer_table. rewrite dict_get_set_same. cbn [option_map norm_obj].
-    reflexivity. }
-  rewrite Hxt.
-  (* Prev, size, Encrypt *)
-  assert (Hprev : dict_get (norm_dict t) Xref.K_Prev = None).
-  { change Xref.K_Prev with Save.K_Prev. rewrite dict_get_norm. unfold t, trailer_table. rewrite dict_get_set_other by discriminate.
-    rewrite (dict_has_false_get _ _ (sv_no_prev d S)). reflexivity. }
-  rewrite Hprev.
-  assert (Hsr : dict_swap_remove (norm_dict t) Xref.K_Prev = norm_dict t).
-  { unfold dict_swap_remove, dict_has. rewrite Hprev. reflexivity. }
-  rewrite Hsr. cbn [prev_loop].
-  assert (Hmaxid : xref_max_id {| x_type := XTTable; x_entries := conv_map x; x_size := i64_as_u32 (Z.of_N size) |} = last_number objs).
-  { unfold xref_max_id, last_number. cbn [x_entries]. unfold x. apply max_id_fold. exact Hobjs. }
-  rewrite Hmaxid.
-  assert (Hlast : last_number objs <= d_max_id d).
-  { unfold last_number. apply fold_max_le; [lia|]. pose proof (sv_objects d S) as Ho.
-    eapply Forall_impl; [|exact Ho]. intros io [H1 _]. exact H1. }
-  replace (u32_max <=? last_number objs) with false
-    by (symmetry; apply N.leb_gt; unfold u32_max, u32_mod in *; lia).
-  assert (Henc : dict_has (norm_dict t) Loader.K_Encrypt = false).
-  { unfold dict_has. rewrite dict_get_norm. unfold t, trailer_table. rewrite dict_get_set_other by discriminate.
+  pose proof (se_max_id d S) as Hmax.
+  exists x.
+  assert (Hmaxid : xref_max_id (table_xref x size) = last_number objs).
+  { unfold xref_max_id, last_number, table_xref. cbn [x_entries]. unfold x. apply max_id_fold. exact Hobjs. }
+  split; [|split; [exact Hmaxid|split; [exact Hxn|]]].
+  - (* the front *)
+    unfold load_front.
+    assert (Hoff : pdf_offset file = 0) by (rewrite E1; apply pdf_offset_header).
+    rewrite Hoff, from_0.
+    assert (Hhead : header file = Some v).
+    { rewrite E1. apply header_rt; [apply (se_version_eol d S) | apply (se_version_utf8 d S)]. }
+    rewrite Hhead.
+    assert (Hmark : read_binary_mark file = m).
+    { rewrite E1. apply binary_mark_rt; [apply (se_version_eol d S) | apply (se_mark d S)]. }
+    rewrite Hmark.
+    assert (Hn_len : n = Loader.blen (body_of d)) by reflexivity.
+    assert (Hstart : get_xref_start file = Some n).
+    { rewrite E2. apply get_xref_start_rt.
+      - rewrite Hn_len. unfold Loader.blen. rewrite app_length. lia.
+      - pose proof (write_xref_long x size) as Hxl.
+        unfold Loader.blen. rewrite Ebody. unfold HM, header_bytes, mark_bytes, trailer_bytes.
+        repeat (rewrite app_length; cbn [length]).
+        pose proof (eq_refl : length (bs "%PDF-") = 5%nat). pose proof (eq_refl : length (bs "trailer") = 7%nat).
+        assert (4 <= length (write_dictionary t))%nat.
+        { unfold write_dictionary. rewrite write_dict_eq. cbn [length]. rewrite app_length. cbn [length]. lia. }
+        lia.
+      - assert (n < u32_mod).
+        { rewrite Hn_len. unfold file, Loader.blen in *. rewrite app_length in Hsm. lia. }
+        unfold u32_mod in *. change (10 ^ 14) with 100000000000000. lia. }
+    rewrite Hstart.
+    (* xref and trailer *)
+    assert (Hwf : obj_wf (ODict t)) by (apply trailer_table_wf_enc; exact S).
+    assert (Hnest : (nest (ODict t) <= MAX_DEPTH)%nat) by (apply trailer_table_nest; exact K).
+    assert (Hxt : xref_and_trailer file n = SOk (table_xref x size, norm_dict t)).
+    { unfold xref_and_trailer. rewrite Hn_len. unfold file. rewrite from_app.
+      unfold xref_and_trailer_table.
+      assert (Etr : trailer_bytes t ++ sx = bs "trailer" ++ x0a :: write_dictionary t ++ sx).
+      { unfold trailer_bytes. repeat (rewrite <- app_assoc; cbn [app]). reflexivity. }
+      rewrite <- app_assoc. rewrite Etr.
+      rewrite xref_table_roundtrip; [| unfold size; lia | unfold size, two32, u32_mod in *; lia | exact Hxi | exact Hxb | exact Hxn].
+      rewrite <- Etr. rewrite trailer_rt by assumption.
+      rewrite dict_get_norm. unfold t, trailer_table. rewrite dict_get_set_same. cbn [option_map norm_obj].
+      reflexivity. }
+    rewrite Hxt.
+    (* Prev, size *)
+    assert (Hprev : dict_get (norm_dict t) Xref.K_Prev = None).
+    { change Xref.K_Prev with Save.K_Prev. rewrite dict_get_norm. unfold t, trailer_table. rewrite dict_get_set_other by discriminate.
+      rewrite (dict_has_false_get _ _ (se_no_prev d S)). reflexivity. }
+    rewrite Hprev.
+    assert (Hsr : dict_swap_remove (norm_dict t) Xref.K_Prev = norm_dict t).
+    { unfold dict_swap_remove, dict_has. rewrite Hprev. reflexivity. }
+    rewrite Hsr. cbn [prev_loop].
+    rewrite Hmaxid.
+    assert (Hlast : last_number objs <= d_max_id d).
+    { unfold last_number. apply fold_max_le; [lia|]. pose proof (se_objects d S) as Ho.
+      eapply Forall_impl; [|exact Ho]. intros io [H1 _]. exact H1. }
+    replace (u32_max <=? last_number objs) with false
+      by (symmetry; apply N.leb_gt; unfold u32_max, u32_mod in *; lia).
+    reflexivity.
+  - (* the objects *)
+    rewrite E3. unfold x. rewrite (read_entries_objs objs HM _ [] 0); try assumption.
+    + reflexivity.
+    + constructor.
+    + rewrite E3 in Hsm. exact Hsm.
+Qed.
+
+Theorem load_save_table d :
+  savable_core d -> known_deep d = false -> small_file_core XTable d ->
+  load (so_bytes (save_core XTable d)) = LOk (reloaded_table d) XTTable.
+Proof.
+  intros S K Hsmall.
+  destruct (front_save_table d (core_enc d S) K Hsmall) as [x [Hf [Hm [_ Hr]]]].
+  rewrite load_front_eq, Hf. unfold of_front, load_tail. cbn [f_trailer f_buf f_xref].
+  assert (Henc : dict_has (norm_dict (trailer_table d)) Loader.K_Encrypt = false).
+  { unfold dict_has. rewrite dict_get_norm. unfold trailer_table. rewrite dict_get_set_other by discriminate.
     change Loader.K_Encrypt with Save.K_Encrypt. rewrite (dict_has_false_get _ _ (sv_no_encrypt d S)). reflexivity. }
-  rewrite Henc.
-  (* the objects *)
-  cbn [x_entries x_type].
-  assert (Hread : read_entries file (conv_map x) [] = SOk (norm_objects objs)).
-  { rewrite E3. unfold x. rewrite (read_entries_objs objs HM _ [] 0); try assumption.
-    - reflexivity.
-    - constructor.
-    - rewrite E3 in Hsm. exact Hsm. }
-  rewrite Hread. reflexivity.
+  rewrite Henc. change (x_entries (table_xref x (d_max_id d + 1))) with (conv_map x). rewrite Hr.
+  unfold doc_of. cbn [f_version f_mark f_trailer f_xref]. rewrite Hm. reflexivity.
 Qed.
